@@ -153,20 +153,23 @@ Qed.
 
 (** the token loop of "TREE name = ...": the current token is ahead of the input, so one
     more unit of fuel is needed (the iteration that sees the EOF token consumes nothing) *)
-Lemma tree_tokens_total : forall fuel acc t l s,
-    String.length s + 1 < fuel -> good (String.length s) (tree_tokens fuel acc t l s).
+Lemma tree_tokens_total : forall fuel t l s,
+    String.length s + 1 < fuel -> good (String.length s) (tree_tokens fuel t l s).
 Proof.
-  induction fuel as [|f IH]; intros acc t l s Hf; [lia|].
+  induction fuel as [|f IH]; intros t l s Hf; [lia|].
   cbn [tree_tokens].
   destruct (tok_eqb t ENDOFCOMMAND); [apply good_ret; lia|].
   destruct (negb (tree_tok t)) eqn:TT; [apply good_ret; lia|].
   destruct (scan_iw s) as [[t' l'] r] eqn:E. pose proof (scan_iw_spec _ _ _ _ E) as [A B].
   cbv beta iota zeta.
-  destruct (tok_eqb t' EOF) eqn:Q.
-  - apply tok_eqb_true in Q. subst t'.
-    destruct f as [|f']; [lia|]. cbn [tree_tokens]. simpl. apply good_ret. lia.
-  - apply tok_eqb_false in Q. specialize (B Q).
-    eapply good_le; [apply IH; lia|lia].
+  assert (G : good (String.length s) (tree_tokens f t' l' r)).
+  { destruct (tok_eqb t' EOF) eqn:Q.
+    - apply tok_eqb_true in Q. subst t'.
+      destruct f as [|f']; [lia|]. cbn [tree_tokens]. simpl. apply good_ret. lia.
+    - apply tok_eqb_false in Q. specialize (B Q).
+      eapply good_le; [apply IH; lia|lia]. }
+  destruct G as (v & e & r' & Heq & Hle). rewrite Heq.
+  destruct v as [tr|u]; apply good_ret; assumption.
 Qed.
 
 Ltac extra_trees :=
@@ -175,11 +178,11 @@ Ltac extra_trees :=
   | |- context [match scan_iw_eol ?f ?x with _ => _ end] => use_total (scan_iw_eol_total f x)
   | |- context [match consume_comment ?f ?x with _ => _ end] => use_total (consume_comment_total f x)
   | |- context [match unsupported_command ?f ?x with _ => _ end] => use_total (unsupported_command_total f x)
-  | |- context [match tree_tokens ?f ?a ?t ?l ?x with _ => _ end] =>
+  | |- context [match tree_tokens ?f ?t ?l ?x with _ => _ end] =>
     let H := fresh "H" in let v := fresh "v" in let e := fresh "e" in let r := fresh "r" in
     let Heq := fresh "Heq" in let Hle := fresh "Hle" in
     assert (H : String.length x + 1 < f) by len_solve;
-    destruct (tree_tokens_total f a t l x H) as (v & e & r & Heq & Hle); rewrite Heq; clear Heq
+    destruct (tree_tokens_total f t l x H) as (v & e & r & Heq & Hle); rewrite Heq; clear Heq
   end.
 
 Lemma parse_trees_total : forall fuel st err s,
